@@ -227,7 +227,11 @@ def intoDynF (E : Ext) (classes : List (String Ã— Conv)) (enums : List (String Ã
         | some m => .ok m
         | none => .error { cls := .runtimeBug, msg := "IndexError" }
       | none => .error { cls := .typeError, msg := "TypeError: Can't convert type into data." }
-    | .sub _ b => dyn b
+    | .sub c b =>
+      -- `isinstance(val, _ScalarType)`: an instance of a scalar subclass is returned as it is
+      match b with
+      | .none | .bool _ | .int _ | .float _ | .complex _ _ | .str _ | .bytes _ => .ok (.sub c b)
+      | _ => dyn b
     | .obj cls _ _ =>
       match classes.lookup cls with
       | some c => intoC E dyn c v
